@@ -52,6 +52,8 @@ class PutHooks(Hooks):
                 return ("effect", "open-w", recv)
             if last in ("copyfile", "copy", "copy2", "move"):
                 return ("effect", last, args[1] if len(args) > 1 else "?")
+            if last in ("write_text", "write_bytes"):
+                return ("effect", "open-w", recv)   # a whole-file write, however it is spelled
             return ("effect", last, recv)
         if f == "urllib.request.urlopen" or last == "urlopen":
             return ("network", text)
